@@ -100,7 +100,10 @@ class ValueAllocator:
 
         did_allocate = False
 
-        for val in vals:
+        # A value may occur several times in `vals` (e.g. a loop that yields its own
+        # block argument): replace it only once, otherwise the first replacement is
+        # detached from the IR again.
+        for val in dict.fromkeys(vals):
             if val.type != reg_type:
                 self._replace_value_with_new_type(val, reg_type)
                 did_allocate = True
